@@ -580,7 +580,7 @@ func (e *hostEnv) planMap(op hostOp) hostExp {
 func execHost(cs *hostCase, st *core.Stats, quiet bool) (*violation, int, []string) {
 	e := &hostEnv{cs: cs, r: gj.NewRuntime(), st: st, quiet: quiet}
 	goja.VerifSetFuel(e.r, opsFuel)
-	installNatives(e.r)
+	installNatives(e.r, nil)
 	if _, err := e.r.RunString(jsPrelude); err != nil {
 		panic(err)
 	}
